@@ -6,8 +6,31 @@ from vlib.core import run as sh
 PROP = 'C02'
 
 
+def _poly_job(q):
+    from props import asm_poly
+    from vlib.core import Ctx
+    c = Ctx('asmx_worker', 'quick', 0)
+    out = {}
+    try:
+        out['res'] = asm_poly.run_step(c)
+        out['src'] = dict(c.functions)
+    except Exception as e:
+        import traceback
+        out['res'] = ([('poly1305_aead_update_scalar block step', None, 'engine error: ' + traceback.format_exc()[-300:], 0)], [])
+        out['src'] = {}
+    finally:
+        c.cleanup()
+    q.put(out)
+
+
 def run(ctx):
     quick = ctx.quick()
+    # scalar Poly1305 block step (two lemmas, ~2.5 min of z3 on one core): started first, collected at the end
+    # (a separate PROCESS forked before any thread or pool exists: forking a pool while a thread sits inside z3 deadlocks the children)
+    import multiprocessing
+    pq = multiprocessing.Queue()
+    pt = multiprocessing.Process(target=_poly_job, args=(pq,))
+    pt.start()
     from props import asm_hmac
     asm_hmac.run_family(ctx, 'C02')       # HMAC managers (machine code) first: seconds
     from props import asm_cmac
@@ -62,6 +85,21 @@ def run(ctx):
             continue
         for fid, desc in fails[:2]:
             ctx.violation('sha_mb:SHA%d:len%d:%s' % (s, L, fid.split('.')[-1]), 'SHA-%d, length %d: %s (the CBMC trace over the real sha_mb_mgr.h is the replay)' % (s, L, desc), [log, h])
+    try:
+        poly = pq.get(timeout=1800)
+    except Exception:
+        poly = {'res': ([('poly1305_aead_update_scalar block step', None, 'no result from the worker process within 1800 s', 0)], []), 'src': {}}
+    pt.join(10)
+    if pt.is_alive():
+        pt.kill()
+    ctx.functions.update(poly.get('src', {}))
+    for name, ok, detail, secs in poly['res'][0]:
+        ctx.add('C02 ' + name, 'discharged' if ok else ('inconclusive' if ok is None else 'violated'), secs, 'asmx+z3', detail)
+    for key, text in poly['res'][1]:
+        ctx.violation(key, text + ' (replay: props/asm_poly.py run_step)')
+    ctx.assume('Poly1305 (scalar): 64x64 products are unknowns bounded by what key clamping implies; that V = x0*r0 + (x0*r1 + x1*r0)*2^64 + x1*c1 + (x2*c1)*2^64 + (x2*r0)*2^128 '
+               'is congruent to x*r modulo 2^130-5 (2^130 = 5, c1 = 5*r1/4) is school algebra and not re-proved; accumulator invariant a2 <= 4 is re-established by the step')
+    ctx.outside += ['Poly1305: the AVX-512 / IFMA implementations, the final reduction and +S of POLY1305_FINALIZE, partial-block padding; the 64x64 multipliers themselves']
     ctx.samples.append('SHA-256, 55-byte message (one block incl. padding) vs 56-byte message (two blocks): both tags equal the padded-message digest over the UF compression')
 
 
